@@ -6,7 +6,7 @@
 set -u
 ID="${1:?seeded id}"; shift
 cd /verif
-CHECKS="${*:-$(echo ${ID%%-*} | tr -d r)}"
+CHECKS="${*:-$(echo ${ID%%-*} | tr -d a-z)}"
 if [ -n "$(git -C /repo status --porcelain --untracked-files=no)" ]; then echo "/repo is dirty; refusing"; exit 2; fi
 P="/verif/seeded/$ID/patch.diff"; [ -f "$P" ] || P="/tmp/pre/$ID/patch.diff"; git -C /repo apply "$P" || { echo "cannot apply"; exit 2; }
 trap 'git -C /repo checkout -q -- .' EXIT
